@@ -218,7 +218,17 @@ def _zone_cases(ctx):
     return counts
 
 
-@analysis("intervals", ["C19.a", "C19.b", "C19.c", "C19.e", "C19.g", "C15.g", "C20.h", "C11.i", "C19.h", "C20.i", "C15.h", "C19.i", "C19.j", "C19.k", "C14.i", "C19.m"])
+rule("C19.n", "a window is half open wherever its end meets a time point: a comparison of a grid time point (an element of .timepoints) with the "
+              "end of a window is `point < end` (inside) or `point >= end` (outside) - also in a shortcut that decides 'the window covers the "
+              "whole grid' from the last point. `end >= last point` takes the closed interval: a window that ends exactly on the last point "
+              "gets that point too", floor=0, props=["C19", "C14", "C08"])
+rule("C02.i", "interval data brought to the grid keeps its gaps: a step that lies in no interval is undefined (NaN) until the documented "
+              "default fills it (vec[isnan(vec)] = default_value) - no other gap filler (ffill / bfill / interpolate / nan_to_num / fillna with "
+              "another value) runs on the result of values_to_grid: a spread, cost or capacity given for an interval must not be carried "
+              "beyond its end", floor=1, props=["C02", "C19"])
+
+
+@analysis("intervals", ["C19.a", "C19.b", "C19.c", "C19.e", "C19.g", "C15.g", "C20.h", "C11.i", "C19.h", "C20.i", "C15.h", "C19.i", "C19.j", "C19.k", "C14.i", "C19.m", "C02.i", "C19.n"])
 def run(ctx):
     p = ctx.p
     zc = _zone_cases(ctx)
@@ -278,6 +288,27 @@ def run(ctx):
                                    "[start, end): a point on a boundary would be counted twice or not at all (steps, take periods, orders)"
                                    % (">=" if lower is ast.GtE else ">", "<" if upper is ast.Lt else "<="), node=n)
                             break
+                # ------------------------------------------------------------ C19.n : one time point against the end of a window
+                if isinstance(n, ast.Compare) and len(n.ops) == 1 and isinstance(n.ops[0], (ast.Lt, ast.LtE, ast.Gt, ast.GtE)):
+                    l0, r0 = n.left, n.comparators[0]
+
+                    def is_point(e):
+                        return any(isinstance(x, ast.Attribute) and x.attr == "timepoints" for x in au.walk_local(e))
+
+                    def is_end(e):
+                        e = _strip_ts(e)
+                        return (isinstance(e, ast.Attribute) and e.attr == "end") or (isinstance(e, ast.Name) and e.id == "end")
+                    opn = None
+                    if is_point(l0) and is_end(r0):
+                        opn = type(n.ops[0])
+                    elif is_end(l0) and is_point(r0):
+                        opn = {ast.Lt: ast.Gt, ast.Gt: ast.Lt, ast.LtE: ast.GtE, ast.GtE: ast.LtE}[type(n.ops[0])]
+                    if opn is not None:
+                        ctx.ob("C19.n", fn, au.short(n, 80), opn in (ast.Lt, ast.GtE),
+                               "a time point is compared with the end of a window as `point %s end`: windows are half open - a point equal to the end "
+                               "is outside. Here a window that ends exactly on the (last) point is treated as covering it: an asset whose end is the "
+                               "last time point of the reference grid (of the horizon, or of an interval of a split optimisation) is dispatched one step "
+                               "beyond its end; an interval boundary on the last point swallows the whole grid" % ("<=" if opn is ast.LtE else ">"), node=n)
                 # ------------------------------------------------------------ C19.e : ordering comparison grid time points vs other
                 if isinstance(n, ast.Compare):
                     for l, o, r in _norm_cmp(n):
@@ -560,3 +591,45 @@ def run(ctx):
                "the points are date_range(start, end, freq) as it comes: for a calendar-anchored frequency the first point is the first "
                "anchor after the start (grid from Jan 1 with 'W': first point Jan 3; from Jan 15 with 'MS': Feb 1) - the steps before it "
                "do not exist, whatever lies there (prices, asset windows, orders) is silently ignored", node=st)
+
+
+    # ================================================================= C02.i gaps of interval data are filled by the documented default only
+    FILLERS = ("ffill", "bfill", "pad", "backfill", "interpolate", "nan_to_num", "fillna", "nanmax", "nanmin")
+    n_i = 0
+    for fn2 in sorted(p.all_functions(), key=lambda f: f.qualname):
+        if fn2.parent is not None:
+            continue
+        calls = [(st, x) for st in au.walk_stmts(fn2.body) for x in au.walk_own(st) if isinstance(x, ast.Call) and au.method_name(x) == "values_to_grid"
+                 and isinstance(x.func, ast.Attribute)]
+        if not calls:
+            continue
+        org2 = ctx.origins(fn2, values_only=True)
+        call_ids = {id(x) for _, x in calls}
+        for st0, x0 in calls:
+            n_i += 1
+            bad = None
+            for st in au.walk_stmts(fn2.body):
+                if st.lineno < st0.lineno:
+                    continue
+                for c in au.walk_own(st):
+                    if not (isinstance(c, ast.Call) and au.method_name(c) in FILLERS):
+                        continue
+                    is_mod = isinstance(c.func, ast.Attribute) and isinstance(c.func.value, ast.Name) and c.func.value.id in ("np", "pd", "numpy", "pandas")
+                    recv = c.func.value if (isinstance(c.func, ast.Attribute) and not is_mod) else (c.args[0] if c.args else None)
+                    if recv is None:
+                        continue
+                    if not any(id(y) == id(x0) for y in org2.nodes(recv, st)) and not any(y is x0 for y in au.walk_local(recv)):
+                        continue
+                    if au.method_name(c) == "fillna" and c.args and any(isinstance(y, ast.Name) and y.id == "default_value" for y in au.walk_local(c.args[0])):
+                        continue      # the documented default, spelled differently
+                    bad = (st, c)
+                    break
+                if bad:
+                    break
+            ctx.ob("C02.i", fn2, "gaps of %s" % au.short(x0, 60), bad is None,
+                   "the gridded interval data passes through %s (%s) before the documented default is applied: a step outside all intervals is no "
+                   "longer undefined - it inherits the value of a neighbouring interval. A spread of 3.0 given for the first day only is charged "
+                   "on all days (optimum 1362 instead of 1815 of the reference model)" % (
+                       au.short(bad[1], 50) if bad else "", p.where(bad[0]) if bad else ""), node=(bad[1] if bad else x0),
+                   ok_detail="no gap filler on the way to the default / to the consumer")
+    ctx.require(n_i >= 1, "no call of values_to_grid found in the package", rules=["C02.i"])
